@@ -52,6 +52,7 @@ type PreCur struct {
 //	rpcver   the node call Call of Tid's next step is answered from version Ver
 //	rpccrash the process dies when Tid's next step makes node call Call
 //	xfail    (real-client mode) the K-th HTTP exchange of the next step gets status 500
+//	xlag     (real-client mode) in the next step, HTTP exchanges with index >= K come from a node Len blocks behind
 //	xswitch  (real-client mode) in the next step, HTTP exchanges with index >= K are answered from version Ver
 //	restart  process restart (pool and tasks rebuilt); an ECrash is recorded
 //	clear    forget armed faults / call plans
@@ -293,6 +294,11 @@ func (sc *Scenario) Exec() (*Run, error) {
 				return fail(fmt.Errorf("xfail needs real-client mode"))
 			}
 			w.Nodes[srcOf(a)].XFail(a.K)
+		case "xlag":
+			if !sc.Real {
+				return fail(fmt.Errorf("xlag needs real-client mode"))
+			}
+			w.Nodes[srcOf(a)].XLag(a.K, uint64(a.Len))
 		case "xswitch":
 			if !sc.Real {
 				return fail(fmt.Errorf("xswitch needs real-client mode"))
